@@ -414,7 +414,7 @@ Definition f1_r3 : record := Rec (TUser 3) 1 3 33 1 false 1.
 (* failover alphabet, 3 voters, quorum 2: commits by leader 1 (one on the bare quorum {1,2}), nodes 1
    and 3 going down / coming back, the next authority installed on node 2, a commit by node 2 *)
 Definition c01_alphabet (with_outages : bool) : list qop :=
-  [ OCommit 1 (1, 1, 1) (TUser 1) [f1_r1] false (Flt [] [3] None);
+  [ OCommit 1 (1, 1, 1) (TUser 1) [f1_r1] false (Flt [] [3] None []);
     OCommit 1 (1, 1, 1) (TUser 2) [f1_r2] false no_faults;
     OInstall 2 (1, 2, 2) false 2 no_faults;
     OCommit 2 (1, 2, 2) (TUser 3) [f1_r3] false no_faults;
